@@ -139,3 +139,63 @@ Definition run_try_as_optimum (minpos : Q) (t : otable) (s : spdc Q) (real : opt
   let K := oracles_of_table t in
   let r := try_as_optimum Q_ops K minpos s in
   report r [] (match r, real with Ok (s', nf), Some rs => check_spdc s' nf rs | _, _ => [] end).
+
+(* ---- comparison of two configurations (the generated setup -> configuration conversion run on the implementation's
+   setup, against the configuration the implementation exported) *)
+From SpdVerif Require Import Gen.ConfigConv.
+
+Definition tol_cfg : Q := 1 # 1000000000.   (* 1e-9: the exported numbers are 4-decimal values of moderate size *)
+Definition cnear (a b : Q) : bool :=
+  let d := Qabs (a - b) in Qle_bool d tol_cfg || Qle_bool d (tol_cfg * Qmax (Qabs a) (Qabs b)).
+Definition onear (a b : option Q) : bool :=
+  match a, b with Some x, Some y => cnear x y | None, None => true | _, _ => false end.
+Definition aunear (a b : auto Q) : bool :=
+  match a, b with Param x, Param y => cnear x y | Auto, Auto => true | _, _ => false end.
+
+Definition check_beam_cfg (pre : string) (m r : beam_cfg Q) : list string :=
+  flag (pre ++ ".wavelength_nm") (cnear (bc_wavelength_nm m) (bc_wavelength_nm r)) ++
+  flag (pre ++ ".phi_deg") (cnear (bc_phi_deg m) (bc_phi_deg r)) ++
+  flag (pre ++ ".theta_deg") (onear (bc_theta_deg m) (bc_theta_deg r)) ++
+  flag (pre ++ ".theta_external_deg") (onear (bc_theta_ext_deg m) (bc_theta_ext_deg r)) ++
+  flag (pre ++ ".waist_um") (cnear (bc_waist_um m) (bc_waist_um r)) ++
+  flag (pre ++ ".waist_position_um") (aunear (bc_waist_pos_um m) (bc_waist_pos_um r)).
+
+Definition apod_cfg_near (a b : apod_cfg Q) : bool :=
+  match a, b with
+  | ACOff, ACOff => true
+  | ACGaussian x, ACGaussian y | ACBartlett x, ACBartlett y | ACBlackman x, ACBlackman y | ACConnes x, ACConnes y
+  | ACCosine x, ACCosine y | ACHamming x, ACHamming y | ACWelch x, ACWelch y => cnear x y
+  | ACInterpolate x, ACInterpolate y => list_near x y
+  | _, _ => false
+  end.
+
+Definition check_cfg (m r : spdc_cfg Q) : list string :=
+  flag "crystal.kind" (String.eqb (cc_kind (c_crystal m)) (cc_kind (c_crystal r))) ++
+  flag "crystal.pm_type" (pm_eqb (cc_pm (c_crystal m)) (cc_pm (c_crystal r))) ++
+  flag "crystal.phi_deg" (cnear (cc_phi_deg (c_crystal m)) (cc_phi_deg (c_crystal r))) ++
+  flag "crystal.theta_deg" (aunear (cc_theta_deg (c_crystal m)) (cc_theta_deg (c_crystal r))) ++
+  flag "crystal.length_um" (cnear (cc_length_um (c_crystal m)) (cc_length_um (c_crystal r))) ++
+  flag "crystal.temperature_c" (cnear (cc_temperature_c (c_crystal m)) (cc_temperature_c (c_crystal r))) ++
+  flag "crystal.counter_propagation" (Bool.eqb (cc_counter (c_crystal m)) (cc_counter (c_crystal r))) ++
+  flag "pump.wavelength_nm" (cnear (pc_wavelength_nm (c_pump m)) (pc_wavelength_nm (c_pump r))) ++
+  flag "pump.waist_um" (cnear (pc_waist_um (c_pump m)) (pc_waist_um (c_pump r))) ++
+  flag "pump.bandwidth_nm" (cnear (pc_bandwidth_nm (c_pump m)) (pc_bandwidth_nm (c_pump r))) ++
+  flag "pump.average_power_mw" (cnear (pc_power_mw (c_pump m)) (pc_power_mw (c_pump r))) ++
+  flag "pump.spectrum_threshold" (onear (pc_threshold (c_pump m)) (pc_threshold (c_pump r))) ++
+  check_beam_cfg "signal" (c_signal m) (c_signal r) ++
+  match c_idler m, c_idler r with
+  | Param a, Param b => check_beam_cfg "idler" a b
+  | Auto, Auto => []
+  | _, _ => ["idler"]
+  end ++
+  match c_pp m, c_pp r with
+  | PCOff, PCOff => []
+  | PCConfig p a, PCConfig p' a' =>
+      flag "periodic_poling.poling_period_um" (aunear p p') ++ flag "periodic_poling.apodization" (apod_cfg_near a a')
+  | _, _ => ["periodic_poling"]
+  end ++
+  flag "deff_pm_per_volt" (cnear (c_deff m) (c_deff r)).
+
+(* the generated conversion applied to the implementation's setup vs the configuration the implementation exported *)
+Definition run_as_config (U : units Q) (s : spdc Q) (exported : spdc_cfg Q) : string :=
+  "ok|nf=|trace=|mis=" ++ join "," (check_cfg (as_config Q_ops U s) exported).
